@@ -2,25 +2,35 @@
 #include "../harness.h"
 #include "../gen.h"
 
-static std::string check_pair(const uint8_t key[16], const uint8_t blk[16])
+// off: address residue of the block buffer handed to the library (-1: derived from the pair; 3 of 4 pairs get
+// the 16-aligned address the pipeline uses, the others any residue)
+static std::string check_pair(const uint8_t key[16], const uint8_t blk[16], int off = -1)
 {
+  if (off < 0)
+  {
+    int h = key[5] ^ blk[3] ^ (key[11] << 1);
+    off = (h & 0x30) ? 0 : (h & 15);
+  }
+  std::string at = off ? " [block at address = " + std::to_string(off) + " mod 16]" : "";
   ref::Aes128 a(key);
   uint8_t want[16], got[16], back[16], rdec[16];
   a.enc(blk, want);
   memcpy(got, blk, 16);
-  wapi::aes_encrypt_block(key, got);
+  wapi::aes_encrypt_block(key, got, off);
   if (memcmp(got, want, 16))
-    return "encrypt(key=" + hex(key, 16) + ", block=" + hex(blk, 16) + ") = " + hex(got, 16) + ", FIPS-197 gives " + hex(want, 16);
+    return "encrypt(key=" + hex(key, 16) + ", block=" + hex(blk, 16) + ") = " + hex(got, 16) + ", FIPS-197 gives " + hex(want, 16) + at;
   memcpy(back, got, 16);
-  wapi::aes_decrypt_block(key, back);
+  wapi::aes_decrypt_block(key, back, off);
   if (memcmp(back, blk, 16))
-    return "decrypt(encrypt(block)) != block for key=" + hex(key, 16) + ", block=" + hex(blk, 16);
+    return "decrypt(encrypt(block)) != block for key=" + hex(key, 16) + ", block=" + hex(blk, 16) + at;
   // decryption of an arbitrary block equals the reference inverse cipher
   a.dec(blk, rdec);
   memcpy(back, blk, 16);
-  wapi::aes_decrypt_block(key, back);
+  wapi::aes_decrypt_block(key, back, off);
   if (memcmp(back, rdec, 16))
-    return "decrypt(key=" + hex(key, 16) + ", block=" + hex(blk, 16) + ") = " + hex(back, 16) + ", FIPS-197 inverse cipher gives " + hex(rdec, 16);
+    return "decrypt(key=" + hex(key, 16) + ", block=" + hex(blk, 16) + ") = " + hex(back, 16) + ", FIPS-197 inverse cipher gives " + hex(rdec, 16) + at;
+  if (const char *cm = wapi::canary_report())
+    return std::string(cm) + " by encrypt/decrypt(key=" + hex(key, 16) + ", block=" + hex(blk, 16) + ")" + at;
   return "";
 }
 
@@ -122,6 +132,8 @@ static Verdict run_c09(const Case &c)
     b.resize(16);
     v.more_distinct.push_back(fnv64(hex(k) + hex(b)));
     std::string m = check_pair(k.data(), b.data());
+    for (int off = 0; off < 16 && m.empty() && kind == "pair"; off++) // structured pairs: at every address residue
+      m = check_pair(k.data(), b.data(), off);
     if (!m.empty())
     {
       Verdict f = Verdict::fail(m);
@@ -129,6 +141,7 @@ static Verdict run_c09(const Case &c)
       return f;
     }
   }
+  v.classes.push_back(kind == "pair" ? "all_16_address_residues" : "address_residue_0_for_3_of_4_pairs_else_any");
   return v;
 }
 
